@@ -45,3 +45,25 @@ Theorem C12_zero_size_sample_would_panic : forall v vt c m,
   moov_of v vt None c m = inr PanicStszZeroSize.
 Proof. exact zero_size_sample_panics. Qed.
 Print Assumptions C12_zero_size_sample_would_panic.
+
+From Muxide Require Export Model.Base Model.Adts Model.Boxes Model.Validation Proofs.ValidationProofs.
+(* the validation module (src/validation.rs, modelled in Model/Validation.v): every function is total and
+   reports through its result: the validity flag is false exactly when an error text was recorded *)
+Theorem C12_validation_reports_through_its_result :
+  (forall c w h f, coherent (validate_video_config c w h f)) /\
+  (forall c sr ch, coherent (validate_audio_config c sr ch)) /\
+  (forall c d k, coherent (validate_video_frame c d k)) /\
+  (forall c d, coherent (validate_audio_frame c d)) /\
+  (forall v a, coherent (validate_muxing_config v a)).
+Proof. exact validation_flag_is_no_errors. Qed.
+Print Assumptions C12_validation_reports_through_its_result.
+
+Theorem C12_accepted_adts_frame_validates : forall p d raw,
+  bytes_ok d = true -> adts_to_raw d = AdtsOk raw -> vr_valid (validate_audio_frame (Aac p) d) = true.
+Proof. exact accepted_adts_frame_validates. Qed.
+Print Assumptions C12_accepted_adts_frame_validates.
+
+Theorem C12_opus_validation_is_the_muxers_check : forall d,
+  vr_valid (validate_audio_frame Opus d) = is_valid_opus_packet d.
+Proof. exact opus_validation_is_the_muxers_check. Qed.
+Print Assumptions C12_opus_validation_is_the_muxers_check.
